@@ -508,6 +508,44 @@ def main(ctx) -> int:
                 flush(ctx, pending, diverged)
         flush(ctx, pending, diverged)
 
+        # 3b. a schedule flown by ONE builder: a handful of routes in rotation, every mission object created for its flight and
+        #     dropped afterwards (what a driver loop over a schedule does); every flight must still satisfy all clauses
+        import gc as _gc
+
+        base = None
+        for _ in range(50):
+            base = L.gen_case(ctx.rng)
+            if L.run_flight(base)['ok']:
+                break
+        if base is not None:
+            routes = []
+            for _ in range(60):
+                o, d, tag = L.gen_route(ctx.rng)
+                c2 = dict(json.loads(json.dumps(base)), orig=o, dest=d, tag=tag)
+                if L.run_flight(c2)['ok']:
+                    routes.append(c2)
+                if len(routes) >= 5:
+                    break
+            fleet = L.make_builder(base)
+            nsched = ctx.scale(quick=40, thorough=400)
+            for k in range(nsched if len(routes) >= 2 else 0):
+                case = json.loads(json.dumps(routes[k % len(routes)]))
+                res = L.run_flight(case, builder=fleet)
+                _gc.collect()
+                ctx.count('schedule-on-one-builder')
+                ctx.evaluations += 1
+                if res['ok']:
+                    for clause, detail in flight_clauses(case, res):
+                        ctx.clause_fail(clause, dict(case, schedule_position=k, note='flown by one builder after '
+                                        f'{k} other flights; every mission object is created for its flight and dropped'),
+                                        finding=None, detail=detail)
+                        break
+                else:
+                    ctx.clause_fail('a mission inside the envelope is flown', dict(case, schedule_position=k), finding=None,
+                                    detail=f"the same mission was flown by a fresh builder but is refused by the schedule builder: {res['exc']!r}")
+                if len(ctx.violations) > 20:
+                    break
+
         # 4. diverging inputs: their clauses were evaluated above; widen the search around them
         for case in diverged[:6]:
             if ctx.violations:
